@@ -28,10 +28,12 @@ macro_rules! props {
 props! {
     "C01" => c01,
     "C02" => c02,
+    "C03" => c03,
     "C04" => c04,
     "C05" => c05,
     "C06" => c06,
     "C08" => c08,
+    "C09" => c09,
     "C14" => c14,
     "C15" => c15,
 }
